@@ -1083,18 +1083,28 @@ def unchecked_factor_rule(ctx, rid):
             if par is None:
                 par = m.parents()
             n += 1
-            classes, node, fnname = None, c, '?'
-            while node in par:
-                p = par[node]
-                if isinstance(p, ast.If) and node in p.body:
-                    for t in ast.walk(p.test):
-                        if isinstance(t, ast.Call) and call_name(t) == 'isinstance' and len(t.args) == 2:
-                            cl = t.args[1].elts if isinstance(t.args[1], ast.Tuple) else [t.args[1]]
-                            classes = (classes or set()) | {ast.unparse(x).split('.')[-1] for x in cl}
-                if isinstance(p, (ast.FunctionDef, ast.AsyncFunctionDef)):
-                    fnname = p.name
-                    break
-                node = p
+            def guards(node, depth=0):
+                """(classes admitted by the isinstance tests enclosing `node`, enclosing function); an unguarded private helper is judged at each of its call sites."""
+                classes, fnname = None, '?'
+                while node in par:
+                    p = par[node]
+                    if isinstance(p, ast.If) and node in p.body:
+                        for t in ast.walk(p.test):
+                            if isinstance(t, ast.Call) and call_name(t) == 'isinstance' and len(t.args) == 2:
+                                cl = t.args[1].elts if isinstance(t.args[1], ast.Tuple) else [t.args[1]]
+                                classes = (classes or set()) | {ast.unparse(x).split('.')[-1] for x in cl}
+                    if isinstance(p, (ast.FunctionDef, ast.AsyncFunctionDef)):
+                        fnname = p.name
+                        break
+                    node = p
+                if classes is None and fnname.startswith('_') and not fnname.startswith('__') and depth < 3:
+                    sites = [x for x in ast.walk(m.tree) if isinstance(x, ast.Call) and (
+                        (isinstance(x.func, ast.Attribute) and x.func.attr == fnname) or (isinstance(x.func, ast.Name) and x.func.id == fnname))]
+                    got = [guards(x, depth + 1)[0] for x in sites]
+                    if sites and all(g is not None for g in got):
+                        classes = set().union(*got)
+                return classes, fnname
+            classes, fnname = guards(c)
             extra = sorted((classes or set()) - set(DISENTANGLING))
             ok = classes is not None and not extra
             ctx.ob(rid, f'{m.name}.{fnname}:factor(validate=False)', ok, '' if ok else
